@@ -194,8 +194,8 @@ DD = "alt(default_of(ci), 'kmap')"
 
 
 STEP = [At("child_ready(ci) and implies(not isa(ci, 'info.SectionInfo'), key_kinds_ok(ci, default_of(ci))) and "
-           "kinds_ok(ci, self._values[val(ci.attribute)])", stmt='Assert', nth=0, label='this-key-has-a-datatype-and-unconverted-defaults'),
-        At("conv_ok(ci, old(self._values)[val(attr)], self._values[val(attr)])", stmt='If', nth=9, carries='C02',
+           "kinds_ok(ci, self._values[val(ci.attribute)])", stmt='Assert', test='ci.attribute is not None', label='this-key-has-a-datatype-and-unconverted-defaults'),
+        At("conv_ok(ci, old(self._values)[val(attr)], self._values[val(attr)])", stmt='If', test='ci.handler is not None', carries='C02',
            label='this-child-converted-as-its-kind-demands')]
 
 
